@@ -16,26 +16,36 @@ Definition ren_sol (ren : list (var * var)) (m : sol) : sol :=
 Definition ren_obs (ren : list (var * var)) (o : obs) : obs :=
   match o with RSel rows => RSel (map (ren_sol ren) rows) | _ => o end.
 
+(* what a group of observations is *)
+Inductive gkind :=
+| GNormal                      (* base, variants with their own algebra, further observations of the base's algebra *)
+| GInit (pushed : list var)    (* [VALUES form; initBindings form]: only the VALUES form has a model *)
+| GDupPrefix                   (* [base; the same text with two prefixes for one namespace] (finding F-C15-2) *)
+| GNoModel.                    (* observations without a counterpart in the model (evaluations with initBindings):
+                                  judged by the specification only *)
+
 Record group := { g_base : case;                       (* evaluated by the model *)
                   g_vars : list (case * list (var * var));
                   g_same : N;
-                  g_pushed : list var }.                (* variables bound from outside (initBindings) *)
+                  g_kind : gkind }.
 Definition vcase := list group.
 Definition vobs := list (list obs).
 
-(* a group whose pushed list is [99] marks the "two prefixes for one namespace"
-   spelling (finding F-C15-2): rdflib's Prologue.bind keeps one prefix per
-   namespace, the query does not parse; it carries no other meaning *)
+Definition g_pushed (g : group) : list var :=
+  match g_kind g with GInit p => p | _ => [] end.
 Definition dup_prefix_group (g : group) : bool :=
-  match g_pushed g with [99] => true | _ => false end.
+  match g_kind g with GDupPrefix => true | _ => false end.
 
 Definition group_model (g : group) : list obs :=
-  if dup_prefix_group g then [model_obs (g_base g); RErr] else
-  (* initBindings has no counterpart in the model: only the VALUES form is evaluated *)
-  if nonempty (g_pushed g) then [model_obs (g_base g)] else
-  model_obs (g_base g)
-  :: map (fun cv => ren_obs (snd cv) (model_obs (fst cv))) (g_vars g)
-  ++ repeat (model_obs (g_base g)) (N.to_nat (g_same g)).
+  match g_kind g with
+  | GDupPrefix => [model_obs (g_base g); RErr]   (* Prologue.bind keeps one prefix per namespace: no parse *)
+  | GInit _ => [model_obs (g_base g)]
+  | GNoModel => []
+  | GNormal =>
+      model_obs (g_base g)
+      :: map (fun cv => ren_obs (snd cv) (model_obs (fst cv))) (g_vars g)
+      ++ repeat (model_obs (g_base g)) (N.to_nat (g_same g))
+  end.
 
 Definition model_obs15 (c : vcase) : vobs := map group_model c.
 
